@@ -184,6 +184,22 @@ class Walker:
                 node["props"] = [[p.name, cval(list(p.values))] for p in o.props]
             except Exception as exc:  # noqa
                 node["props"] = {"raises": type(exc).__name__}
+            # ... and so does what the section inherits along its chain of links (every further hop)
+            try:
+                chain, cur, visited = [], o, {o.id}
+                for _ in range(8):
+                    nxt = cur.link
+                    if nxt is None or nxt.id in visited:
+                        break
+                    if self.top_id is not None and nxt.id == self.top_id:
+                        self.cyclic = True
+                        break
+                    visited.add(nxt.id)
+                    chain.append([[p.name, cval(list(p.values))] for p in nxt.props])
+                    cur = nxt
+                node["link-chain"] = chain
+            except Exception as exc:  # noqa
+                node["link-chain"] = {"raises": type(exc).__name__}
         return node
 
     def value(self, v):
